@@ -90,6 +90,10 @@ def shape_problems(t, s, root, where, out, pairs, depth=0):
         for r in s.get("required", []):
             if r not in cam:
                 out.append(("nested-required", where[0], where[1], t.__name__, r))
+            elif cam[r].default is None:
+                # the data type lets the field be left out, the schema demands it at this position: an object built without
+                # it fails on structure
+                out.append(("nested-omittable-required", where[0], where[1], t.__name__, cam[r].name))
         for c, f in cam.items():
             if c in props:
                 shape_problems(hints[f.name], props[c], root, (t.__name__, f.name), out, pairs, depth + 1)
